@@ -265,6 +265,8 @@ package raft
 //@   ensures [snapshot-interval] parseDur(jcfg.SnapshotInterval) != 0 ==> cfg.RaftConfig.SnapshotInterval == parseDur(jcfg.SnapshotInterval)
 //@   ensures [snapshot-threshold] jcfg.SnapshotThreshold != 0 ==> cfg.RaftConfig.SnapshotThreshold == jcfg.SnapshotThreshold
 //@   ensures [leader-lease-timeout] parseDur(jcfg.LeaderLeaseTimeout) != 0 ==> cfg.RaftConfig.LeaderLeaseTimeout == parseDur(jcfg.LeaderLeaseTimeout)
+// every setting the saved form carries is read back (the saved form omits the namespace only when it is the default)
+//@   ensures [datastore-namespace] cfg.DatastoreNamespace == ite(jcfg.DatastoreNamespace != "", jcfg.DatastoreNamespace, old(cfg.DatastoreNamespace))
 //@   modifies *
 
 // ---- "a newly added peer holds the same pinset as the others before it reports itself ready" ----
